@@ -114,7 +114,7 @@ pub(crate) fn parse_directive(jsx_attr: &JSXAttr, is_component: bool) -> Directi
         modifiers = Some(splitted.map(Atom::from).collect());
         value = match &jsx_attr.value {
             // `v-foo="bar"`: the string is the directive's value
-            Some(JSXAttrValue::Lit(lit)) => Expr::Lit(lit.clone()),
+            Some(JSXAttrValue::Lit(lit)) => jsx_lit_to_expr(lit),
             // no value: the binding's value is `undefined`
             _ => void_zero(),
         };
@@ -180,7 +180,7 @@ fn parse_modifiers(exprs: &[Option<ExprOrSpread>]) -> BTreeSet<Atom> {
 
 fn parse_v_text_directive(jsx_attr: &JSXAttr) -> Directive {
     let expr = match &jsx_attr.value {
-        Some(JSXAttrValue::Lit(lit)) => Expr::Lit(lit.clone()),
+        Some(JSXAttrValue::Lit(lit)) => jsx_lit_to_expr(lit),
         Some(JSXAttrValue::JSXExprContainer(JSXExprContainer {
             expr: JSXExpr::Expr(expr),
             ..
@@ -213,7 +213,7 @@ fn parse_v_text_directive(jsx_attr: &JSXAttr) -> Directive {
 
 fn parse_v_html_directive(jsx_attr: &JSXAttr) -> Directive {
     let expr = match &jsx_attr.value {
-        Some(JSXAttrValue::Lit(lit)) => Expr::Lit(lit.clone()),
+        Some(JSXAttrValue::Lit(lit)) => jsx_lit_to_expr(lit),
         Some(JSXAttrValue::JSXExprContainer(JSXExprContainer {
             expr: JSXExpr::Expr(expr),
             ..
@@ -370,4 +370,18 @@ fn parse_v_slots_directive(jsx_attr: &JSXAttr) -> Directive {
         _ => None,
     };
     Directive::Slots(expr)
+}
+
+/// A JSX string attribute value used as a JavaScript string literal: only its value carries over.
+/// The source spelling (`raw`) follows JSX rules (no escapes, character entities, raw line breaks)
+/// and would print as a different - or invalid - JavaScript literal.
+fn jsx_lit_to_expr(lit: &Lit) -> Expr {
+    match lit {
+        Lit::Str(str) => Expr::Lit(Lit::Str(Str {
+            span: str.span,
+            value: str.value.clone(),
+            raw: None,
+        })),
+        lit => Expr::Lit(lit.clone()),
+    }
 }
